@@ -90,7 +90,13 @@ class HierDictDocument(DictDocument):
 
             class_name = self.get_class_name(body_class)
             if self.ignore_wrappers:
-                doc = doc.get(class_name, None)
+                body = doc.get(class_name, None)
+                if body is None and len(doc) == 1:
+                    # bare body style: the message class has its own name,
+                    # the document is keyed by the method name
+                    body, = doc.values()
+
+                doc = body
                 if doc is None:  # "method: null" means no arguments
                     doc = {}
 
